@@ -28,6 +28,7 @@ from mitmproxy.proxy import commands
 from mitmproxy.proxy import context
 from mitmproxy.proxy import events
 from mitmproxy.proxy import layer
+from mitmproxy.proxy import tunnel as mtunnel
 
 ID = "C04"
 LEVEL = "exploration"
@@ -42,16 +43,27 @@ RULE = ("seeded trees of 1-4 probe layers (real Layer subclasses; any position o
         "blocking OpenConnections and nested generators before/after forwarding to the child, interleaved in any "
         "order with the completions of outstanding blocking commands (own, child's, sibling's); non-trivial = at "
         "least one event was queued behind a blocking command and replayed later; distinct = distinct abstract "
-        "handle/resume logs")
+        "handle/resume logs.  Tunnel family (12 % of runs, own rng site): a real NextLayer whose late decision is a "
+        "chain of 1-2 minimal subclasses of the real TunnelLayer (1-3 handshake messages, optional blocking hook per "
+        "handshake message) around a recording innermost layer (optionally behind the tunnel's own NextLayer); the "
+        "scripted client sends handshake/payload messages and a FIN at any point, the connection state is kept the "
+        "way proxy/server.py keeps it (half-closed before ConnectionClosed is handed over, CloseConnection closes), "
+        "and the decision arrives before / in the middle of / after all of it; the innermost layer must handle exactly "
+        "what a schedule-independent model of the tunnel protocol says belongs to it")
 COMPONENTS_REAL = ["mitmproxy.proxy.layer.Layer.handle_event/__process/__continue", "mitmproxy.proxy.layer.NextLayer",
-                   "mitmproxy.proxy.events.CommandCompleted subclasses", "mitmproxy.proxy.commands (blocking hand-off)"]
+                   "mitmproxy.proxy.events.CommandCompleted subclasses", "mitmproxy.proxy.commands (blocking hand-off)",
+                   "mitmproxy.proxy.tunnel.TunnelLayer (tunnel family: state machine, event queue, child hand-off)"]
 COMPONENTS_STUB = ["protocol logic of the layers (probe layers interpret the script)",
                    "proxy server / addons (the harness answers blocking commands; next_layer decision made by the script)"]
 ASSUMPTIONS = ["the proxy server feeds one event at a time and exhausts the command generator before the next event "
                "(no re-entrant handle_event), as ConnectionHandler.server_event does under its lock",
                "a parent routes CommandCompleted by command identity (command_sources) as HttpLayer/RawQuicLayer do"]
 EXPECTED_PROBES = ["deferred_events", "completion_queued_at_waiting_ancestor", "progress_while_sibling_waits",
-                   "repause_during_drain", "nl_events_replayed", "nl_asked_again", "nl_child_blocks_in_replay"]
+                   "repause_during_drain", "nl_events_replayed", "nl_asked_again", "nl_child_blocks_in_replay",
+                   "tun_runs", "tun_events_replayed_after_decision", "tun_close_while_top_hook_pending",
+                   "tun_started_on_half_closed_connection", "tun_data_and_close_before_decision",
+                   "tun_child_handled_close", "tun_close_during_handshake", "tun_bad_handshake_message",
+                   "tun_handshake_hook_completed", "tun_inner_nl_decided", "tun_inner_nl_aborted", "tun_nested"]
 
 MAX_LAYERS = 4
 MAX_OPS = 30
@@ -505,6 +517,455 @@ class World:
 
 
 # ---------------------------------------------------------------------------
+# tunnel family: the layer chosen by a late next_layer decision is a real TunnelLayer
+# ---------------------------------------------------------------------------
+# A real NextLayer sits on top.  Its decision (taken when the seeded schedule completes the next_layer hook) is a
+# chain of 1-2 minimal subclasses of the REAL mitmproxy.proxy.tunnel.TunnelLayer (handshake = the peer's first
+# ``hs`` messages, optionally with a blocking hook per handshake message) around a recording innermost layer
+# (optionally behind the tunnel's own default NextLayer).  The scripted client sends handshake messages, payload
+# messages and possibly a FIN; the connection state is maintained the way proxy/server.py does it (on EOF
+# ``state &= ~CAN_READ`` *before* the ConnectionClosed event is handed to the layers; CloseConnection commands
+# close / half-close it), so data and close that arrive while the hook is pending are replayed to a tunnel whose
+# connection is already half-closed.
+#
+# Oracle: (a) the chosen layer (outer tunnel) handles exactly the events that arrived, once, in arrival order;
+# (b) the layer below the tunnels handles exactly what a schedule-independent reference model of the (synthetic,
+# harness-defined) tunnel protocol says belongs to it: Start once all handshakes are complete, every payload message
+# once and in order, the close once - and never a handshake message.  When a handshake fails (bad message / FIN
+# during the handshake) the only thing demanded is that no data/close reaches the innermost layer.
+def _hs_token(k, j):
+    return f"h{k}.{j}"
+
+
+class VTunnel(mtunnel.TunnelLayer):
+    def __init__(self, ctx, world, k, spec):
+        super().__init__(ctx, ctx.client, ctx.client)
+        self.TW = world
+        self.k = k
+        self.spec = spec
+        self.got = 0
+        self.waiting = None
+        if world.debug:
+            self.debug = "  " * (k + 1)
+
+    def _handle_event(self, event):
+        self.TW.tun_enter(self, event)
+        yield from super()._handle_event(event)
+
+    def start_handshake(self):
+        self.TW.log.append((self.TW.step, f"T{self.k}", "start_handshake"))
+        self.TW.handshakes_started[self.k] = self.TW.handshakes_started.get(self.k, 0) + 1
+        yield commands.SendData(self.tunnel_connection, f"hello{self.k}".encode())
+
+    def receive_handshake_data(self, data):
+        TW = self.TW
+        j = self.got
+        self.got += 1
+        TW.log.append((TW.step, f"T{self.k}", "hs", data.decode("latin-1")))
+        hooks = self.spec.get("hs_hooks") or []
+        if j < len(hooks) and hooks[j]:
+            yield from TW.block(self, f"T{self.k}")
+        if data != _hs_token(self.k, j).encode():
+            return False, "bad handshake"
+        return self.got >= int(self.spec.get("hs", 1)), None
+
+
+class TunRec(layer.Layer):
+    """Innermost layer below the tunnels: records what it handles, may block on hooks, answers a close."""
+
+    def __init__(self, ctx, world, spec):
+        super().__init__(ctx)
+        self.TW = world
+        self.spec = spec
+        self.n = 0
+        self.waiting = None
+        if world.debug:
+            self.debug = "      "
+
+    def _handle_event(self, event):
+        TW = self.TW
+        if isinstance(event, events.CommandCompleted):
+            TW.violate("own_completion_handled_as_event", {"kind": "tunnel_child"},
+                       f"innermost layer got {type(event).__name__} as a fresh event")
+            return
+        if self.waiting is not None:
+            TW.violate("entered_while_waiting", {"event": type(event).__name__},
+                       f"innermost layer started handling {type(event).__name__} while it waits for command {self.waiting}")
+        idx = self.n
+        self.n += 1
+        if isinstance(event, events.Start):
+            what = ("S",)
+        elif isinstance(event, events.DataReceived):
+            what = ("d", event.data.decode("latin-1"))
+        elif isinstance(event, events.ConnectionClosed):
+            what = ("c",)
+        else:
+            what = ("?", type(event).__name__)
+        TW.rec_enter(what)
+        hooks = self.spec.get("hooks") or []
+        h = hooks[idx] if idx < len(hooks) else 0
+        if h & 1:
+            yield from TW.block(self, "R")
+        if isinstance(event, events.DataReceived):
+            yield commands.SendData(event.connection, b"echo:" + event.data)
+        elif isinstance(event, events.ConnectionClosed):
+            act = self.spec.get("on_close", "close")
+            if act == "close":
+                yield commands.CloseConnection(event.connection)
+            elif act == "half":
+                yield commands.CloseTcpConnection(event.connection, half_close=True)
+        if h & 2:
+            yield from TW.block(self, "R")
+        TW.log.append((TW.step, "R", "leave"))
+
+
+class TunWorld:
+    def __init__(self, sc):
+        self.sc = sc
+        self.debug = bool(sc.get("debug"))
+        self.step = 0
+        self.log = []
+        self.violations = []
+        self._vseen = set()
+        self.probes = {}
+        self.faults = {}
+        self.states = set()
+        self.outstanding = []
+        self.born = {}
+        self.ntok = 0
+        self.completions = 0
+        self.fed = []
+        self.fed_step = []
+        self.top_handled = 0
+        self.top_broken = False
+        self.rec_handled = []
+        self.rec_broken = False
+        self.handshakes_started = {}
+        self.proxy_closed = False
+        self.fin_fed = False
+        self.asks = {"top": 0, "inner": 0}
+        self.decided = False
+        self.effective = None
+        self.inner_nl = None
+        self.tunnels = []
+        self.rec = None
+        # reference model of the synthetic tunnel protocol (depends on the arrival order only)
+        self.m_stage = 0
+        self.m_got = 0
+        self.m_failed = False
+        self.m_exp = []
+        self.m_inner_asked = False
+        self.m_hs_consumed = set()
+        client = connection.Client(peername=("client", 1234), sockname=("127.0.0.1", 8080),
+                                   timestamp_start=1605699329, state=connection.ConnectionState.OPEN)
+        self.ctx = context.Context(client, _options())
+        self.client = client
+        top = sc.get("top") or {}
+        self.top_nl = layer.NextLayer(self.ctx, ask_on_start=bool(top.get("ask_on_start")))
+        if self.debug:
+            self.top_nl.debug = " "
+        self.top_call = self.top_nl.handle_event if top.get("ref") == "early" else None
+        self.when = top.get("when", "complete")
+        self.chain = [dict(c) for c in (sc.get("chain") or [{"hs": 1}])][:3]
+
+    probe = World.probe
+    violate = World.violate
+
+    def new_token(self):
+        self.ntok += 1
+        return self.ntok
+
+    # -- layers -----------------------------------------------------------------------
+    def decide_top(self):
+        if self.decided:
+            return
+        self.decided = True
+        self.tunnels = [VTunnel(self.ctx, self, k, spec) for k, spec in enumerate(self.chain)]
+        self.rec = TunRec(self.ctx, self, self.sc.get("rec") or {})
+        for a, b in zip(self.tunnels, self.tunnels[1:]):
+            a.child_layer = b
+        last = self.tunnels[-1]
+        if self.sc.get("inner_nl"):
+            self.inner_nl = last.child_layer
+            if self.debug:
+                self.inner_nl.debug = "     "
+        else:
+            last.child_layer = self.rec
+        self.top_nl.layer = self.tunnels[0]
+        self.log.append((self.step, "top", "decided"))
+
+    def block(self, lay, name):
+        tok = self.new_token()
+        cmd = VerifProbeHook(tok)
+        cmd.v_tok = tok
+        cmd.v_kind = "h"
+        cmd.v_owner = name
+        lay.waiting = tok
+        self.log.append((self.step, name, "block", tok))
+        got = yield cmd
+        self.log.append((self.step, name, "resume", tok))
+        want = reply_value(tok, "h")
+        if got != want:
+            self.violate("resumed_with_wrong_value", {"got": "none" if got is None else "other", "kind": "h"},
+                         f"{name} waiting for command {tok} was resumed with {got!r} instead of {want!r}")
+        lay.waiting = None
+
+    def tun_enter(self, tun, event):
+        if isinstance(event, events.CommandCompleted):
+            # completions of commands of the layers below pass through (own ones resume the generator instead)
+            if getattr(event.command, "v_owner", None) == f"T{tun.k}":
+                self.violate("own_completion_handled_as_event", {"kind": "tunnel"},
+                             f"tunnel {tun.k} got the completion of its own command as a fresh event")
+            return
+        kind = type(event).__name__
+        self.log.append((self.step, f"T{tun.k}", "enter", kind))
+        if tun.waiting is not None:
+            self.violate("entered_while_waiting", {"event": kind},
+                         f"tunnel {tun.k} started handling {kind} while it waits for command {tun.waiting}")
+        if tun.k != 0 or self.top_broken:
+            return
+        vid = World.vid(event)
+        idx = self.top_handled
+        self.top_handled = idx + 1
+        if idx < len(self.fed) and self.fed[idx] == vid:
+            if self.fed_step[idx] < self.step:
+                self.probe("deferred_events")
+                if idx >= 1 and self.effective is not None and self.fed_step[idx] < self.effective:
+                    self.probe("tun_events_replayed_after_decision")
+            return
+        self.top_broken = True
+        if vid in self.fed[:idx]:
+            self.violate("event_handled_twice", {"nl": True, "event": kind}, f"chosen tunnel handled {vid} a second time")
+        elif vid in self.fed[idx + 1:]:
+            self.violate("event_out_of_order", {"nl": True, "event": kind},
+                         f"chosen tunnel handled {vid} before {self.fed[idx]} which arrived earlier (arrival order {self.fed})")
+        else:
+            self.violate("event_never_given", {"nl": True, "event": kind},
+                         f"chosen tunnel handled {vid} which never arrived")
+
+    def rec_enter(self, what):
+        self.log.append((self.step, "R", "enter", what))
+        self.rec_handled.append(what)
+        if self.rec_broken or self.m_failed:
+            # failed handshake: what a tunnel does with later bytes is its own business, nothing is demanded
+            return
+        n = len(self.rec_handled)
+        if n <= len(self.m_exp) and self.m_exp[n - 1] == what:
+            if what == ("c",):
+                self.probe("tun_child_handled_close")
+            return
+        self.rec_broken = True
+        if what[0] == "d" and what[1] in self.m_hs_consumed:
+            problem = "handshake_message_as_payload"
+        elif what in self.rec_handled[:-1]:
+            problem = "twice"
+        elif what in self.m_exp[n:]:
+            problem = "out_of_order"
+        else:
+            problem = "not_expected_yet"
+        self.violate("tunnel_child_handled_wrong_event", {"problem": problem, "event": what[0]},
+                     f"the layer below the chosen tunnel(s) handled {what} as its event #{n}; the arrival order "
+                     f"{self.fed} implies {self.m_exp[:n + 2]} (handshakes started {sorted(self.handshakes_started.items())})")
+
+    # -- reference model -----------------------------------------------------------------
+    def model_data(self, m):
+        if self.m_failed:
+            return
+        if self.m_stage < len(self.chain):
+            if m == _hs_token(self.m_stage, self.m_got):
+                self.m_hs_consumed.add(m)
+                self.m_got += 1
+                if self.m_got >= int(self.chain[self.m_stage].get("hs", 1)):
+                    self.m_stage += 1
+                    self.m_got = 0
+                    if self.m_stage == len(self.chain) and not self.sc.get("inner_nl"):
+                        self.m_exp.append(("S",))
+            else:
+                self.m_failed = True
+                self.probe("tun_bad_handshake_message")
+        else:
+            if self.sc.get("inner_nl") and not self.m_inner_asked:
+                self.m_inner_asked = True
+                self.m_exp.append(("S",))
+            self.m_exp.append(("d", m))
+
+    def model_close(self):
+        if self.m_failed:
+            return
+        if self.m_stage < len(self.chain):
+            self.m_failed = True
+            self.probe("tun_close_during_handshake")
+        elif self.sc.get("inner_nl") and not self.m_inner_asked:
+            # the tunnel's own NextLayer has nothing to decide on: it aborts, no layer is chosen below the tunnel
+            self.probe("tun_inner_nl_aborted")
+        else:
+            self.m_exp.append(("c",))
+
+    # -- harness side ------------------------------------------------------------------
+    def on_command(self, cmd):
+        if isinstance(cmd, layer.NextLayerHook):
+            which = "top" if cmd.data is self.top_nl else ("inner" if cmd.data is self.inner_nl else None)
+            if which is None:
+                raise RuntimeError("NextLayerHook for unknown NextLayer")
+            n = self.asks[which]
+            self.asks[which] = n + 1
+            cmd.v_tok = f"nl-{which}-{n}"
+            cmd.v_kind = "nl"
+            cmd.v_which = which
+            self.log.append((self.step, which, "ask", n))
+            self.outstanding.append(cmd)
+            self.born[id(cmd)] = self.step
+            if which == "top" and self.when == "emit":
+                self.decide_top()
+        elif isinstance(cmd, VerifProbeHook):
+            self.outstanding.append(cmd)
+            self.born[id(cmd)] = self.step
+        elif isinstance(cmd, commands.CloseConnection):
+            half = bool(getattr(cmd, "half_close", False))
+            self.log.append((self.step, "srv", "close", half))
+            if cmd.connection is self.client:
+                # proxy/server.py close_connection
+                if half:
+                    self.client.state &= ~connection.ConnectionState.CAN_WRITE
+                else:
+                    self.client.state = connection.ConnectionState.CLOSED
+                    self.proxy_closed = True
+        elif isinstance(cmd, commands.SendData):
+            self.log.append((self.step, "srv", "send", cmd.data.decode("latin-1")))
+        elif isinstance(cmd, commands.Log):
+            pass
+        else:
+            self.log.append((self.step, "srv", "cmd", type(cmd).__name__))
+
+    def feed(self, event):
+        self.step += 1
+        paused = "".join(("T" if t._paused else "t") for t in self.tunnels) + ("R" if self.rec is not None and self.rec._paused else "")
+        self.states.add(f"tun|{self.m_stage}|{self.client.state.name}|{'p' if self.top_nl._paused else '-'}|{paused}|"
+                        f"{type(event).__name__}")
+        call = self.top_call or self.top_nl.handle_event
+        self.log.append((self.step, "top", "give", World.vid(event)))
+        try:
+            for cmd in call(event):
+                self.on_command(cmd)
+        except Exception as e:
+            tb = traceback.extract_tb(e.__traceback__)
+            last = tb[-1].filename if tb else ""
+            if last.endswith("proxy/layer.py") or last.endswith("proxy/tunnel.py"):
+                self.violate("layer_exception", {"type": type(e).__name__},
+                             f"{type(e).__name__}: {e} raised inside {last.rsplit('/', 1)[-1]} while handling {World.vid(event)}")
+                raise LayerCrashed()
+            raise
+        self.check_step()
+
+    def feed_wire(self, i, op):
+        if self.proxy_closed or self.fin_fed:
+            return False
+        if op.get("op") == "close":
+            # proxy/server.py handle_connection on EOF of a TCP peer: half-closed first, then the event
+            self.client.state &= ~connection.ConnectionState.CAN_READ
+            self.fin_fed = True
+            ev = events.ConnectionClosed(self.client)
+            self.model_close()
+        else:
+            m = str(op.get("m", f"p{i}"))
+            ev = events.DataReceived(self.client, m.encode("latin-1"))
+            self.model_data(m)
+        ev.v_id = ("e", i)
+        self.fed.append(ev.v_id)
+        self.fed_step.append(self.step + 1)
+        pending_top = self.effective is None and self.asks["top"] > 0
+        if pending_top:
+            self.probe("tun_event_while_top_hook_pending")
+            if self.fin_fed:
+                self.probe("tun_close_while_top_hook_pending")
+        self.feed(ev)
+        return True
+
+    def complete(self, idx):
+        cmd = self.outstanding.pop(idx)
+        self.completions += 1
+        if self.born.pop(id(cmd), self.step) < self.step:
+            self.faults["late_completion"] = self.faults.get("late_completion", 0) + 1
+        if isinstance(cmd, layer.NextLayerHook):
+            if cmd.v_which == "top":
+                self.decide_top()
+                if self.effective is None:
+                    self.effective = self.step + 1
+                    if self.client.state is connection.ConnectionState.CAN_WRITE:
+                        self.probe("tun_started_on_half_closed_connection")
+                        if len(self.fed) >= 3:
+                            self.probe("tun_data_and_close_before_decision")
+                    if len(self.chain) > 1:
+                        self.probe("tun_nested")
+            else:
+                self.inner_nl.layer = self.rec
+                self.probe("tun_inner_nl_decided")
+            ev = events.HookCompleted(cmd)
+        else:
+            ev = events.HookCompleted(cmd, reply_value(cmd.v_tok, "h"))
+            if cmd.v_owner != "R":
+                self.probe("tun_handshake_hook_completed")
+        ev.v_id = ("c", cmd.v_tok)
+        self.feed(ev)
+
+    def check_step(self):
+        if self.effective is not None and self.tunnels:
+            t0 = self.tunnels[0]
+            if t0.waiting is None and not self.top_broken and self.top_handled != len(self.fed):
+                self.violate("event_not_handled", {"nl": True, "descendant_waiting": bool(self.outstanding)},
+                             f"the chosen tunnel is not waiting for anything, yet handled only {self.top_handled} of the "
+                             f"{len(self.fed)} events that arrived ({self.fed})")
+        for lay in [self.top_nl] + self.tunnels + ([self.rec] if self.rec is not None else []):
+            if not lay._paused and lay._paused_event_queue:
+                self.violate("idle_layer_has_queued_events", {"layer": type(lay).__name__},
+                             f"{lay!r} is not paused but holds {len(lay._paused_event_queue)} queued events")
+
+    def final_check(self):
+        for lay, name in [(t, f"tunnel {t.k}") for t in self.tunnels] + ([(self.rec, "innermost layer")] if self.rec else []):
+            if lay.waiting is not None:
+                self.violate("never_resumed", {"nl": True},
+                             f"{name} still waits for command {lay.waiting} although every command has been completed")
+        if self.asks["top"] and self.effective is None:
+            self.violate("nextlayer_decision_lost", {}, "top NextLayer was given a decision but never acted on it")
+        if self.effective is None or self.rec_broken or self.m_failed:
+            return
+        if self.rec_handled != self.m_exp:
+            missing = self.m_exp[len(self.rec_handled):][:4]
+            self.violate("tunnel_child_event_not_handled", {"event": missing[0][0] if missing else "?"},
+                         f"every command has been completed, yet the layer below the chosen tunnel(s) handled only "
+                         f"{self.rec_handled} of {self.m_exp} (arrival order {self.fed}, "
+                         f"handshakes started {sorted(self.handshakes_started.items())})")
+
+
+def execute_tunnel(sc):
+    W = TunWorld(sc)
+    ops = sc.get("ops", [])[:MAX_OPS]
+    try:
+        st = events.Start()
+        st.v_id = ("S",)
+        W.fed.append(st.v_id)
+        W.fed_step.append(1)
+        W.feed(st)
+        for i, op in enumerate(ops):
+            if op.get("op") == "done":
+                if W.outstanding:
+                    W.complete(int(op.get("pick", 0)) % len(W.outstanding))
+            else:
+                W.feed_wire(i, op)
+        n = 0
+        while W.outstanding and n < 100:
+            W.complete(0)
+            n += 1
+        W.final_check()
+    except LayerCrashed:
+        pass
+    W.probes["tun_runs"] = 1
+    return {"violations": W.violations, "digest": digest(W.log),
+            "nontrivial": W.probes.get("tun_events_replayed_after_decision", 0) > 0 and W.completions > 0,
+            "faults": dict(W.faults), "probes": dict(W.probes), "sim_s": 0.0, "states": W.states}
+
+
+# ---------------------------------------------------------------------------
 # execute
 # ---------------------------------------------------------------------------
 def _mk_event(W, i, op):
@@ -520,6 +981,8 @@ def _mk_event(W, i, op):
 
 
 def execute(sc):
+    if sc.get("tunnel"):
+        return execute_tunnel(sc)
     W = World(sc)
     immediate = bool(sc.get("immediate"))
     ops = sc.get("ops", [])[:MAX_OPS]
@@ -584,7 +1047,44 @@ def _gen_nl(r):
             "when": r.choice(["complete", "complete", "emit"]), "ref": r.choice(["late", "early"])}
 
 
+def _gen_tunnel(r):
+    chain = []
+    for _ in range(r.choice([1, 1, 1, 2])):
+        hs = r.choice([1, 1, 2, 3])
+        chain.append({"hs": hs, "hs_hooks": [1 if r.random() < 0.25 else 0 for _ in range(hs)]})
+    wire = [{"op": "data", "m": _hs_token(k, j)} for k, c in enumerate(chain) for j in range(c["hs"])]
+    if r.random() < 0.08:
+        wire[r.randrange(len(wire))]["m"] = "bad"
+    wire += [{"op": "data", "m": f"p{i}"} for i in range(r.choice([0, 0, 1, 1, 2, 3]))]
+    if r.random() < 0.15:
+        wire = wire[:r.randrange(1, len(wire) + 1)] + [{"op": "close"}]      # FIN somewhere (maybe mid-handshake)
+    elif r.random() < 0.75:
+        wire.append({"op": "close"})
+    mode = r.choice(["hold", "hold", "mixed", "mixed", "prompt"])
+    p_done = {"hold": 0.0, "mixed": r.choice([0.2, 0.4, 0.6]), "prompt": 1.0}[mode]
+    ops = []
+    for k, w in enumerate(wire):
+        ops.append(w)
+        if mode == "prompt":
+            ops += [{"op": "done", "pick": 0} for _ in range(2)]
+        else:
+            while r.random() < p_done:
+                ops.append({"op": "done", "pick": r.randrange(0, 4)})
+        if mode == "hold" and k >= 1 and r.random() < 0.25:
+            mode, p_done = "mixed", 0.5                                       # decision arrives in the middle
+    return {"family": f"c04-tunnel-{len(chain)}t", "tunnel": True, "debug": r.random() < 0.15,
+            "top": {"ask_on_start": r.random() < 0.3, "when": r.choice(["complete", "complete", "emit"]),
+                    "ref": r.choice(["late", "early"])},
+            "chain": chain, "inner_nl": r.random() < 0.25,
+            "rec": {"hooks": [r.choice([0, 0, 0, 0, 1, 2, 3]) for _ in range(6)],
+                    "on_close": r.choice(["close", "close", "half", "none"])},
+            "ops": ops[:MAX_OPS]}
+
+
 def generate(rng, tier):
+    rt = rng.at("c04-tunnel")
+    if rt.random() < 0.12:
+        return _gen_tunnel(rt)
     r = rng.at("c04")
     n = r.choice([1, 2, 2, 3, 3, 4, 4])
     nodes = [{"name": "L0", "children": []}]
@@ -660,7 +1160,61 @@ def _at(obj, path):
     return obj
 
 
+def _shrink_tunnel(sc):
+    if sc.get("debug"):
+        c = copy.deepcopy(sc)
+        c["debug"] = False
+        yield c
+    if sc.get("inner_nl"):
+        c = copy.deepcopy(sc)
+        c["inner_nl"] = False
+        yield c
+    for k, v in (("ask_on_start", False), ("when", "complete"), ("ref", "late")):
+        if (sc.get("top") or {}).get(k) != v:
+            c = copy.deepcopy(sc)
+            c.setdefault("top", {})[k] = v
+            yield c
+    rec = sc.get("rec") or {}
+    if any(rec.get("hooks") or []):
+        c = copy.deepcopy(sc)
+        c["rec"]["hooks"] = []
+        yield c
+    if rec.get("on_close", "close") != "close":
+        c = copy.deepcopy(sc)
+        c.setdefault("rec", {})["on_close"] = "close"
+        yield c
+    chain = sc.get("chain") or []
+    for k, t in enumerate(chain):
+        if any(t.get("hs_hooks") or []):
+            c = copy.deepcopy(sc)
+            c["chain"][k]["hs_hooks"] = []
+            yield c
+    if len(chain) > 1:
+        # drop the inner tunnel together with its handshake messages
+        c = copy.deepcopy(sc)
+        c["chain"] = c["chain"][:-1]
+        pre = f"h{len(chain) - 1}."
+        c["ops"] = [op for op in c["ops"] if not str(op.get("m", "")).startswith(pre)]
+        yield c
+    for k, t in enumerate(chain):
+        hs = int(t.get("hs", 1))
+        if hs > 1:
+            c = copy.deepcopy(sc)
+            c["chain"][k]["hs"] = hs - 1
+            last = _hs_token(k, hs - 1)
+            c["ops"] = [op for op in c["ops"] if op.get("m") != last]
+            yield c
+    for i, op in enumerate(sc.get("ops", [])):
+        if op.get("pick"):
+            c = copy.deepcopy(sc)
+            c["ops"][i]["pick"] = 0
+            yield c
+
+
 def shrink_candidates(sc):
+    if sc.get("tunnel"):
+        yield from _shrink_tunnel(sc)
+        return
     for flag in ("debug", "immediate"):
         if sc.get(flag):
             c = copy.deepcopy(sc)
